@@ -363,7 +363,9 @@ def run_multi(ctx, case):
         ctx.add_to_set("type_cost", "multi-member:%s:%s" % (mb.spec["type"], mb.spec.get("cost")))
     multi = MultiFit([mb.fit for mb in members], minimizer=case["minimizer"])
     names = list(multi.parameter_names)
-    state = {"values": {}, "fixed": {}, "multi_constraints": []}
+    state = {"values": {}, "fixed": {}, "multi_constraints": [], "shared": [], "member_constraint_elsewhere": False}
+    if any(mb.ref.model.order != sorted(mb.ref.model.order) for mb in members):
+        ctx.stratum("multi:permuted-order")
     for mb in members:
         for n, v in zip(mb.ref.model.pnames, mb.ref.p):
             state["values"].setdefault(n, float(v))
@@ -388,6 +390,8 @@ def run_multi(ctx, case):
             return
         pvec = np.array([state["values"][n] for n in names], dtype=float)
         mcc = float(sum(constraint_cost(c, pvec) for c in state["multi_constraints"]))
+        if state["shared"]:
+            return check_multi_shared(where, exp_ndf, n_con, mcc)
         gofs = [mb.exp_gof() for mb in members]
         got = multi.goodness_of_fit
         if any(g is None for g in gofs):
@@ -402,6 +406,70 @@ def run_multi(ctx, case):
                 ctx.close("multi.chi2_probability", gp, float(stats.chi2.sf(c, exp_ndf)), tol=Tol.custom("PROB", 1e-7, 1e-10), detail={"where": where, "cost_without_det": c, "ndf": exp_ndf}, key=lambda: classify_multi("prob", n_con))
         else:
             ctx.check("multi.chi2_probability", gp is None, {"got": gp, "expected": None, "where": where})
+
+    def joint():
+        """joint covariance and residuals of the chi2 members: own blocks + the shared matrix in every block between sharing members"""
+        chi = [i for i, mb in enumerate(members) if mb.is_chi2()]
+        off, o = {}, 0
+        for i in chi:
+            off[i] = o
+            o += members[i].ref.n
+        V, r = np.zeros((o, o)), np.zeros(o)
+        for i in chi:
+            ref = members[i].ref
+            sl = slice(off[i], off[i] + ref.n)
+            V[sl, sl] = ref.total_cov()  # contains the shared sources: they are declared sources of every sharing member
+            r[sl] = ref.d - ref.model_values()
+        for sh in state["shared"]:
+            for a in sh["fits"]:
+                for b in sh["fits"]:
+                    if a != b:
+                        ra, rb = members[a].ref, members[b].ref
+                        V[off[a] : off[a] + ra.n, off[b] : off[b] + rb.n] += source_cov(sh["src"], ra.ref_values(sh["src"], ra.p))
+        return V, r, chi
+
+    def check_multi_shared(where, exp_ndf, n_con, mcc):
+        V, r, chi = joint()
+        okV, cond = pd_info(V)
+        if not okV or cond > 1e6:
+            ctx.discard("joint-covariance-not-pd-or-ill-conditioned")
+            return
+        chi2 = float(r @ np.linalg.solve(V, r))
+        con_chi = float(sum(members[i].ref.constraint_cost() for i in chi))
+        others = [members[i].exp_gof() for i in range(len(members)) if i not in chi]
+        got = multi.goodness_of_fit
+        d = {"where": where, "joint_chi2": chi2, "constraint_cost_of_chi2_members": con_chi, "gof_of_other_members": others, "multi_constraint_cost": mcc, "cond": cond,
+             "multi_names": names, "member_names": [mb.ref.model.pnames for mb in members]}
+        if any(g is None for g in others):
+            ctx.check("multi.goodness_of_fit", got is None, dict(d, got=got, expected=None))
+        else:
+            eg = chi2 + con_chi + float(sum(others)) + mcc
+            ctx.close("multi.goodness_of_fit", got, eg, tol=Tol.LINALG, scale=abs(chi2) + abs(con_chi) + sum(abs(g) for g in others) + abs(mcc) + 1.0, detail=d)
+            ctx._count("multi.goodness_of_fit(shared)")
+            if state["member_constraint_elsewhere"]:
+                ctx._count("multi.goodness_of_fit(shared, member constraint at another index)")
+        gp = multi.chi2_probability
+        if len(chi) == len(members):
+            c = chi2 + con_chi + mcc
+            if exp_ndf > 0 and gp is not None and np.isfinite(gp):
+                ctx.close("multi.chi2_probability", gp, float(stats.chi2.sf(c, exp_ndf)), tol=Tol.custom("PROB", 1e-7, 1e-10), detail={"where": where, "cost_without_det": c, "ndf": exp_ndf, "shared": True})
+                ctx._count("multi.chi2_probability(shared)")
+        else:
+            ctx.check("multi.chi2_probability", gp is None, {"got": gp, "expected": None, "where": where})
+
+    def note_member_constraints():
+        """strata: constraints of chi2 members, and whether one of them refers to a parameter whose index differs between member and multi-fit"""
+        if not state["shared"]:
+            return
+        for mb in members:
+            if not mb.is_chi2():
+                continue
+            for c in mb.ref.constraints:
+                ctx.stratum("multi:shared+member-constraint")
+                idx = [c["index"]] if c["kind"] == "simple" else list(c["indices"])
+                if any(names.index(mb.ref.model.pnames[i]) != i for i in idx):
+                    ctx.stratum("multi:shared+member-constraint-at-another-index")
+                    state["member_constraint_elsewhere"] = True
 
     def classify_multi(obs, x):
         return None
@@ -418,12 +486,39 @@ def run_multi(ctx, case):
             mb = members[mi]
             dsl.apply_live(mb.fit, mb.spec, cop)
             dsl.apply_ref(mb.ref, mb.spec, cop)
+            if mb.is_chi2():
+                ctx.stratum("multi:member-constraint-after-shared" if state["shared"] else "multi:member-constraint-before-shared")
+            note_member_constraints()
+        elif k == "shared":
+            sop = op[1]
+            a = sop[1]
+            ctx.op("multi.%s.shared" % sop[0])
+            fits = list(range(len(members))) if a["fits"] == "all" else [int(j) for j in a["fits"]]
+            if sop[0] == "add_error":
+                multi.add_error(err_val=np.array(a["err"], dtype=float) if isinstance(a["err"], list) else a["err"], fits=a["fits"], axis=a["axis"], name=a["name"], correlation=a.get("corr", 0.0), relative=False, reference="data")
+                src = {"kind": "simple", "axis": "y", "err": a["err"], "corr": a.get("corr", 0.0), "relative": False, "reference": "data", "enabled": True, "name": a["name"]}
+            else:
+                ev = a.get("err_val")
+                multi.add_matrix_error(err_matrix=np.array(a["matrix"], dtype=float), matrix_type=a["matrix_type"], fits=a["fits"], axis=a["axis"], name=a["name"], err_val=np.array(ev, dtype=float) if isinstance(ev, list) else ev, relative=False, reference="data")
+                src = {"kind": "matrix", "axis": "y", "matrix": a["matrix"], "matrix_type": a["matrix_type"], "err_val": ev, "relative": False, "reference": "data", "enabled": True, "name": a["name"]}
+            for j in fits:
+                members[j].ref.sources.append(src)
+            state["shared"].append({"src": src, "fits": fits})
+            ctx.stratum("multi:shared")
+            if state["fixed"]:
+                ctx.stratum("multi:shared-after-fix")
+            note_member_constraints()
         elif k == "do_fit":
             ctx.op(k)
             push_values()
             if not all(mb.admissible() for mb in members):
                 ctx.discard("do_fit-skipped-inadmissible")
                 continue
+            if state["shared"]:
+                okV, cond = pd_info(joint()[0])
+                if not okV or cond > 1e6:
+                    ctx.discard("do_fit-skipped-joint-covariance-ill-conditioned")
+                    continue
             try:
                 multi.do_fit()
             except Exception as e:
@@ -433,6 +528,8 @@ def run_multi(ctx, case):
                 ctx.violation(None, "multi.do_fit.no-exception", {"traceback": fmt_exc(), "op_index": i})
                 return nontrivial
             did_fit = True
+            if state["shared"]:
+                ctx.stratum("multi:shared+do_fit")
             for n, v in zip(names, multi.parameter_values):
                 state["values"][n] = float(v)
         else:
